@@ -126,8 +126,9 @@ func (p *proxy) call(ctx erpc.UnknownCallCtx) (interface{}, *erpc.Status) {
 	}
 	stat := callcmd.Status()
 	if !stat.OK() && stat.Code() < 200 && stat.Code() > 99 {
-		stat.SetCode(erpc.CodeBadGateway)
-		stat.SetMsg(erpc.CodeText(erpc.CodeBadGateway))
+		// NOTE: the status may be one of the framework's shared predefined
+		// statuses, so it must not be modified in place
+		stat = erpc.NewStatus(erpc.CodeBadGateway, erpc.CodeText(erpc.CodeBadGateway), stat.Cause())
 	}
 	return result, stat
 }
@@ -151,8 +152,7 @@ func (p *proxy) push(ctx erpc.UnknownPushCtx) *erpc.Status {
 	settings = append(settings, erpc.WithBodyCodec(ctx.GetBodyCodec()))
 	stat := p.pushForwarder(&label).Push(label.ServiceMethod, ctx.InputBodyBytes(), settings...)
 	if !stat.OK() && stat.Code() < 200 && stat.Code() > 99 {
-		stat.SetCode(erpc.CodeBadGateway)
-		stat.SetMsg(erpc.CodeText(erpc.CodeBadGateway))
+		stat = erpc.NewStatus(erpc.CodeBadGateway, erpc.CodeText(erpc.CodeBadGateway), stat.Cause())
 	}
 	return stat
 }
